@@ -20,7 +20,7 @@ RULE = (
 )
 ASSUMPTIONS = [
     "for cell-mapping operations the data transformation (decided by C07/C12) defines the expected mask image",
-    "'norm' threshold probed a decade away from 1e-8 (lengths 0, <= 1e-9, >= 1e-7)",
+    "'norm' threshold probed a decade away from 1e-8 and at 0.6-0.7 / 1.3-1.6 times the threshold (balanced and single-axis vectors)",
     "ufunc / ndarray-left / numpy-scalar-left results are outside C08 (DESIGN section 6)",
 ]
 
@@ -287,7 +287,8 @@ def setter_case(draw):
             "form": draw(st.sampled_from(["bool-array", "int-array", "float-array", "nested-list", "callable", "true",
                                           "false", "none", "norm", "bool-array-n1"])),
             "mask": draw(gen.mask_spec(nd)), "via": draw(st.sampled_from(["init", "setter"])),
-            "lens": draw(st.lists(st.sampled_from([0.0, 1e-12, 1e-9, 1e-7, 1e-3, 1.0, 1e6]), min_size=1, max_size=8))}
+            "lens": draw(st.lists(st.sampled_from([0.0, 1e-12, 1e-9, 1e-7, 1e-3, 1.0, 1e6]), min_size=1, max_size=8)),
+            "near_threshold": draw(st.booleans())}
 
 
 def check_setter(case):
@@ -308,6 +309,18 @@ def check_setter(case):
         dirs /= np.linalg.norm(dirs, axis=-1, keepdims=True)
         lens = np.array(case["lens"])[rng.integers(0, len(case["lens"]), size=n)]
         arr = dirs * lens[..., np.newaxis]
+        if case.get("near_threshold"):
+            # 30-40 % away from the threshold, with balanced components (every component is below 1e-8 although the
+            # length is above it, and vice versa along a single axis)
+            near = np.array([0.6e-8, 0.7e-8, 1.3e-8, 1.4e-8, 1.6e-8])[rng.integers(0, 5, size=n)]
+            balanced = np.ones((*n, k)) / np.sqrt(k) * rng.choice([-1.0, 1.0], size=(*n, k))
+            single = np.zeros((*n, k))
+            single[..., 0] = 1.0
+            use_bal = rng.random(n) < 0.6
+            d2 = np.where(use_bal[..., np.newaxis], balanced, single)
+            pick = rng.random(n) < 0.5
+            arr = np.where(pick[..., np.newaxis], d2 * near[..., np.newaxis], arr)
+            lens = np.where(pick, near, lens)
         model = lens > 1e-8
         val = "norm"
     elif form == "bool-array":
